@@ -623,6 +623,14 @@ def run_case(p):
     return fails, counts, desc, sample
 
 
+class HarnessDeadline(Exception):
+    pass
+
+
+def _deadline(signum, frame):
+    raise HarnessDeadline()
+
+
 def _worker_init():
     # the parent's SIGTERM handler must not be inherited: Pool.terminate() relies on SIGTERM killing a worker outright
     signal.signal(signal.SIGTERM, signal.SIG_DFL)
@@ -637,14 +645,26 @@ def main():
     nproc = min(16, os.cpu_count() or 1)
     failures, counts, distinct, samples = [], dict((c, 0) for c in CONTRACTS), set(), []
     pool = mp.Pool(nproc, initializer=_worker_init)
+    signal.signal(signal.SIGALRM, _deadline)
+    signal.alarm({'quick': 280, 'thorough': 870}.get(tier, 280))      # whatever happens, report within the budget
+    hung = False
     try:
         for fails, cnt, desc, sample in pool.imap(run_case, cases, chunksize=1):
             failures.extend(fails)
             for k, v in cnt.items(): counts[k] = counts.get(k, 0) + v
             distinct.update(desc)
             if sample is not None and len(samples) < 4: samples.append(sample)
+    except HarnessDeadline:
+        failures.append({'key': 'timeout harness-deadline', 'what': 'the harness did not finish within its wall-clock budget; results are partial',
+                         'input': {'tier': tier, 'seed': seed}})
     finally:
-        pool.terminate(); pool.join()
+        signal.alarm(30)
+        try:
+            pool.terminate(); pool.join()
+        except HarnessDeadline:
+            hung = True
+        finally:
+            signal.alarm(0)
         shutil.rmtree(SCRATCH[0], ignore_errors=True)
     # at most 60 are printed: smallest reproduction of every class first, then the second smallest of every class, ...
     def klass(f):
@@ -670,6 +690,8 @@ def main():
            'nfailures': len(failures), 'samples': samples, 'seconds': time.time() - t0, 'per_contract': counts,
            'failure_classes': len(groups)}
     print('@@JSON@@' + json.dumps(out))
+    if hung:
+        sys.stdout.flush(); os._exit(0)
 
 
 if __name__ == '__main__':
